@@ -7,8 +7,8 @@ package harness
 import (
 	"bytes"
 	"context"
-	"crypto/tls"
 	"crypto/sha256"
+	"crypto/tls"
 	"encoding/hex"
 	"fmt"
 	"hash"
@@ -125,29 +125,29 @@ type World struct {
 	ctx     context.Context
 	Cancel  context.CancelFunc
 
-	mu        sync.Mutex
-	ServeErr  error
-	ServeDone bool
+	mu          sync.Mutex
+	ServeErr    error
+	ServeDone   bool
 	ServeDoneAt time.Duration
 	CancelledAt time.Duration
-	Cancelled bool
-	BackReqs  []*BackendReq
-	Clients   []*Client
-	LogBuf    bytes.Buffer
+	Cancelled   bool
+	BackReqs    []*BackendReq
+	Clients     []*Client
+	LogBuf      bytes.Buffer
 
-	Step       int
-	Decisions  []Decision
-	digest     hash.Hash
-	rng        *pcg
-	tapePos    int
-	Violations []Violation
-	Start      time.Time
-	Probes     map[string]int
-	Yields     []*yieldPoint
+	Step          int
+	Decisions     []Decision
+	digest        hash.Hash
+	rng           *pcg
+	tapePos       int
+	Violations    []Violation
+	Start         time.Time
+	Probes        map[string]int
+	Yields        []*yieldPoint
 	callbackCount map[string]int
-	Stuck      bool
-	schedHash  hash.Hash
-	ConnStates []string
+	Stuck         bool
+	schedHash     hash.Hash
+	ConnStates    []string
 }
 
 type testingT interface {
@@ -269,6 +269,14 @@ func NewWorld(t testingT, plan *Plan) *World {
 	fingerproxy.DefaultLog = mk("[fingerproxy] ")
 	log.SetOutput(lw)
 
+	w.Net.onNewPair = func(p *Pair) {
+		var id int
+		if n, _ := fmt.Sscanf(p.Name, "c%d", &id); n == 1 {
+			if f, ok := plan.Faults.Front[id]; ok {
+				p.B.Faults = f
+			}
+		}
+	}
 	w.Front = w.Net.NewListener(tcpAddr(frontAddr))
 	w.BackL = w.Net.NewListener(tcpAddr(backendAddr))
 	w.Dialer = &Dialer{Net: w.Net, Backend: w.BackL, From: tcpAddr(proxyOut), RefuseAt: map[int]bool{}}
@@ -527,13 +535,19 @@ func (w *World) enabled() []action {
 	// deliveries, canonical order
 	for _, p := range w.Net.Pending() {
 		p := p
+		if p.Dir == "ab" && w.blockedByFault(p) {
+			continue
+		}
 		acts = append(acts, action{fmt.Sprintf("dl %s %s", p.Pair.Name, p.Dir), func() { w.deliver(p) }})
 	}
 	// client steps
 	for _, c := range w.Clients {
 		c := c
-		if c.AtGate() {
+		if c.AtGate() && w.startAllowed(c) {
 			acts = append(acts, action{fmt.Sprintf("step %s", c.Name), func() { c.gate <- struct{}{} }})
+		}
+		if c.Plan.AbortKind != "" && !c.aborted && c.conn != nil && c.conn.out.delivered == c.Plan.AbortAt {
+			acts = append(acts, action{fmt.Sprintf("abort %s %s", c.Name, c.Plan.AbortKind), func() { w.abortClient(c) }})
 		}
 	}
 	// yield releases
@@ -582,10 +596,90 @@ func (w *World) deliver(p Pending) {
 			k = w.nextCut(p)
 		}
 	}
+	if p.Dir == "ab" {
+		if c := w.clientByName(p.Pair.Name); c != nil {
+			lim := -1
+			if c.Plan.AbortKind != "" {
+				lim = c.Plan.AbortAt - p.Pair.A.out.delivered
+			}
+			if c.Plan.StallAt >= 0 && c.Plan.StallOn {
+				lim = c.Plan.StallAt - p.Pair.A.out.delivered
+			}
+			if lim >= 0 && k > lim {
+				k = lim
+			}
+		}
+	}
 	if k < p.N {
 		w.Probes["partial_delivery"]++
 	}
 	w.Net.Deliver(p.Pair, p.Dir, k)
+}
+
+func (w *World) clientByName(name string) *Client {
+	for _, c := range w.Clients {
+		if c.Name == name {
+			return c
+		}
+	}
+	return nil
+}
+
+// blockedByFault: the client->proxy direction has reached its abort / stall offset.
+func (w *World) blockedByFault(p Pending) bool {
+	c := w.clientByName(p.Pair.Name)
+	if c == nil {
+		return false
+	}
+	d := p.Pair.A.out.delivered
+	if c.Plan.AbortKind != "" && d >= c.Plan.AbortAt && p.N > 0 {
+		return true
+	}
+	if c.Plan.StallOn && d >= c.Plan.StallAt {
+		if !c.stalled {
+			c.stalled = true
+			w.Net.fired("client_stall")
+		}
+		return true
+	}
+	return false
+}
+
+func (w *World) startAllowed(c *Client) bool {
+	c.W.mu.Lock()
+	first := c.stepIdx == 0 && !c.started
+	c.W.mu.Unlock()
+	if !first {
+		return true
+	}
+	for _, id := range c.Plan.StartAfterDone {
+		if !w.Clients[id].Done() {
+			return false
+		}
+	}
+	return true
+}
+
+func (w *World) abortClient(c *Client) {
+	c.aborted = true
+	c.AbortedAt = w.Now()
+	if c.Plan.AbortKind == "rst" {
+		w.Net.fired("client_rst_at_offset")
+		w.Net.Reset(c.conn)
+	} else {
+		w.Net.fired("client_fin_at_offset")
+		w.Net.AbortFIN(c.conn)
+	}
+	c.abort()
+}
+
+// AbortFIN: the client process goes away cleanly at this instant: what it had
+// written but the network had not delivered is dropped, a FIN follows.
+func (n *Net) AbortFIN(c *Conn) {
+	n.mu.Lock()
+	c.out.inflight = nil
+	n.mu.Unlock()
+	c.Close()
 }
 
 func (w *World) segProfile(p Pending) string {
@@ -651,7 +745,7 @@ func (w *World) absorb(label string) {
 	}
 }
 
-func (w *World) Digest() string { return hex.EncodeToString(w.digest.Sum(nil))[:16] }
+func (w *World) Digest() string    { return hex.EncodeToString(w.digest.Sum(nil))[:16] }
 func (w *World) SchedHash() string { return hex.EncodeToString(w.schedHash.Sum(nil))[:16] }
 
 var advanceMenu = []time.Duration{50 * time.Millisecond, 200 * time.Millisecond, time.Second, 5 * time.Second, 30 * time.Second, 2 * time.Minute, 10 * time.Minute}
@@ -725,6 +819,18 @@ func (w *World) Drain(maxSteps int) {
 		w.Step++
 		w.mu.Unlock()
 	}
+}
+
+// SettleTime advances simulated time in small steps, delivering everything
+// in FIFO order in between, so that timers (GOAWAY close, handshake timeout,
+// Shutdown polling) and their consequences run out.
+func (w *World) SettleTime(seconds int) {
+	for i := 0; i < seconds*2; i++ {
+		w.Drain(2000)
+		time.Sleep(500 * time.Millisecond)
+	}
+	w.Drain(2000)
+	synctest.Wait()
 }
 
 // Teardown unwinds every goroutine of the world so the bubble can end.
